@@ -12,6 +12,8 @@ from vlib.observe import Uids, snapshot
 
 ID = "C05"
 LEVEL = "exploration"
+TECHNIQUE = 'property-based round trip + metamorphic relation (options must not change the loaded tree)'
+LEVEL_TEXT = 'exploration: generated trees x 9 profiles x 3-6 storage configurations each; round trip equality, second generation, and option-independence of the loaded observation'
 RULE = (
     "case = (profile in {plain str, objects + callback mappers, DictWrapper + its mappers, derived class with class-"
     "level maps/mappers, TypedTree str / objects / derived, FileSystemTree}, tree spec with clones at any relative "
